@@ -114,12 +114,16 @@ Print Assumptions c19_refuted_star.
 Theorem c19_refuted_reversed_range : exists ks mb, refutes CReversedRange ks mb.
 Proof. exact refuted_reversed_range. Qed.
 Print Assumptions c19_refuted_reversed_range.
-Theorem c19_refuted_paren_group : exists ks mb, refutes CParenGroup ks mb.
-Proof. exact refuted_paren_group. Qed.
-Print Assumptions c19_refuted_paren_group.
-Theorem c19_refuted_not_or_arity : exists ks mb, refutes CNotOrArity ks mb.
-Proof. exact refuted_not_or_arity. Qed.
-Print Assumptions c19_refuted_not_or_arity.
+(** repaired by "NOT and OR take complete search keys": the former witnesses of
+    paren_group / not_or_arity and a nested program meet the specification *)
+Example c19_arity_repaired :
+  search_line [KGroup [KHas FSeen]] wit_mb = ROk [1]
+  /\ search_line [KNot (KHeader (S_ "Subject") (S_ "hello"))] wit_mb = ROk [2; 3]
+  /\ wf_prog ex_nested = true /\ classify_line ex_nested wit_mb = None
+  /\ print_prog ex_nested = S_ "OR (SEEN FROM ""alice"") NOT OR HEADER ""Subject"" ""other"" NOT ((TEXT ""three""))"
+  /\ search_line ex_nested wit_mb = ROk [1; 3] /\ spec_search ex_nested wit_mb = SOk [1; 3].
+Proof. exact arity_repaired. Qed.
+
 Theorem c19_refuted_unknown_key : exists ks mb, refutes CUnknownKey ks mb.
 Proof. exact refuted_unknown_key. Qed.
 Print Assumptions c19_refuted_unknown_key.
